@@ -1,3 +1,5 @@
+//@@ include url_types
+//@@ include str_prelude
 // ===================== url crate: opaque Url + assumed accessors (trusted; RFC 3986 parsing is the url crate's) =====================
 #[verifier::external_type_specification] #[verifier::external_body] pub struct ExParseError(url::ParseError);
 #[verifier::external_type_specification] #[verifier::external_body] #[verifier::accept_recursive_types(S)] pub struct ExHost<S>(url::Host<S>);
@@ -25,7 +27,6 @@ pub assume_specification [Url::query] (u: &Url) -> (r: Option<&str>)
     ensures (r matches Some(q) ==> url_query(u) == Some(q@)) && (r is None ==> url_query(u) is None);
 pub assume_specification [Url::parse] (s: &str) -> (r: std::result::Result<Url, url::ParseError>)
     ensures (r matches Ok(u) ==> url_parse_spec(s@) == Some(u)) && (r is Err ==> url_parse_spec(s@) is None);
-pub assume_specification [<Url as Clone>::clone] (u: &Url) -> (r: Url) ensures r == *u;
 
 pub uninterp spec fn lower(s: Seq<char>) -> Seq<char>;                 // str::to_lowercase
 pub assume_specification [str::to_lowercase] (s: &str) -> (r: String) ensures r@ == lower(s@);
@@ -71,10 +72,7 @@ pub open spec fn star() -> Seq<char> { seq!['*'] }
 pub fn vp_opt_str_or_empty_eq(o: &Option<String>, s: &str) -> (r: bool)
     ensures r == (match *o { Some(v) => v@ == s@, None => s@.len() == 0 }),
 { o.as_deref().unwrap_or("") == s }
-pub uninterp spec fn split_on(s: Seq<char>, sep: char) -> Seq<Seq<char>>;     // str::split(char)
-pub uninterp spec fn trim_spec(s: Seq<char>) -> Seq<char>;                     // str::trim
 pub uninterp spec fn trim_start_c(s: Seq<char>, c: char) -> Seq<char>;         // str::trim_start_matches(char)
-pub assume_specification[ str::trim ](s: &str) -> (r: &str) ensures r@ == trim_spec(s@);
 /// `s.trim_start_matches(c)` (Pattern-generic)
 #[verifier::external_body]
 pub fn vp_trim_start_matches_char<'a>(s: &'a str, c: char) -> (r: &'a str) ensures r@ == trim_start_c(s@, c) { s.trim_start_matches(c) }
